@@ -339,7 +339,8 @@ def run_harness(cases, workdir, timeout=600, name="i"):
         path = os.path.join(workdir, "%s_%d.cases" % (name, rounds))
         _write_cases(path, ["%d\t%s\t%s" % (i, cases[i].op, "\t".join(cases[i].args)) for i in range(start, len(cases))])
         try:
-            p = subprocess.run([HARNESS_BIN, path], stdout=subprocess.PIPE, stderr=subprocess.PIPE, timeout=timeout)
+            p = subprocess.run([HARNESS_BIN, path], stdout=subprocess.PIPE, stderr=subprocess.PIPE, timeout=timeout,
+                               env=dict(os.environ, TMPDIR=workdir))  # scratch trees of the harness live (and die) with the work dir
             out, rc, hung = p.stdout, p.returncode, False
         except subprocess.TimeoutExpired as e:
             out, rc, hung = e.stdout or b"", -1, True
